@@ -23,7 +23,7 @@ ASSUMPTIONS = ['node Readable.from([Buffer...], {objectMode:false}) delivers the
 
 ALPHABET = ['a', '"', ',', '\n', '\r', '#']
 POLICIES = [('simple', ','), ('quoted', ','), ('quoted_rfc', ',')]
-UTF8_SAMPLES = ['a,\ufffd\r\n\ufffd"x', 'é,"ж\r\n€",𝄞\r', '\ufeffa,é\r\n"\r\n"', '#ж\n𝄞"\r\r\n"é', '€\r\n\ufeff\r\n#', 'a\r\nb\r\nc\r\n']
+UTF8_SAMPLES = ['a,\ufffd\r\n\ufffd"x', 'é,"ж\r\n€",𝄞\r', '\ufeffa,é\r\n"\r\n"', '#ж\n𝄞"\r\r\n"é', '€\r\n\ufeff\r\n#', 'a\r\nb\r\nc\r\n', 'e\u0301,a\u030a\n\u212b']
 BAD_SAMPLES = [b'a,\xffb\n', b'\xc3', b'a\n\xe2\x82', b'\x80a,b', b'ab\xf0\x9d\x84\n', b'\xc3\xa9,\xa9\r\n']
 
 
